@@ -47,7 +47,7 @@ pub enum Ev {
 #[derive(Clone, Debug)]
 pub enum ChooseMode { Newest, Oldest, Script }
 #[derive(Clone, Debug)]
-pub enum PrioMode { Static(Vec<i64>), Count, Script, Hash(u64) }
+pub enum PrioMode { Static(Vec<i64>), Count, Script, Hash(u64), CountThen(bool) }
 
 #[derive(Clone, Debug, PartialEq)]
 pub enum Fault { None, ErrAt(usize), OutOfSetAt(usize) }
@@ -118,6 +118,11 @@ impl<'a, N: Name> DependencyProvider for Prov<'a, N> {
             PrioMode::Count => {
                 let n = self.reg.pkgs.get(&pid).map(|m| m.keys().filter(|v| r.contains(v)).count()).unwrap_or(0);
                 -(n as i64)
+            }
+            PrioMode::CountThen(most_first) => {
+                // number of candidate versions (most or fewest first), ties broken by the larger package number
+                let n = self.reg.pkgs.get(&pid).map(|m| m.keys().filter(|v| r.contains(v)).count()).unwrap_or(0) as i64;
+                (if *most_first { n } else { -n }) * 64 + pid as i64
             }
             PrioMode::Script => self.pick(&mut sh, 2) as i64,
             PrioMode::Hash(_) => {
@@ -513,6 +518,109 @@ pub fn scenario_registry(rng: &mut Rng) -> Registry {
     reg
 }
 
+/// deep scope: 5-7 packages, up to 3 versions (0..=2), 1-2 dependencies per version on any package (cycles back to
+/// the root included) with sets from {any, == k, != k, < k, >= k}: most runs need several conflicts and learned
+/// incompatibilities are reused (shared nodes in the derivation tree)
+pub fn deep_registry(rng: &mut Rng) -> Registry {
+    let mut reg = Registry::default();
+    let np = 5 + rng.below(3) as u32;
+    let set = |rng: &mut Rng| -> R {
+        let k = rng.below(3) as u32;
+        match rng.below(6) {
+            0 => R::full(),
+            1 => R::singleton(k),
+            2 | 3 => R::singleton(k).complement(),
+            4 => R::strictly_lower_than(k + 1),
+            _ => R::higher_than(k),
+        }
+    };
+    for p in 0..np {
+        for v in 0..3u32 {
+            if v > 0 && rng.chance(1, 3) { continue; }
+            if p > 0 && rng.chance(1, 25) { reg.pkgs.entry(p).or_default().insert(v, None); continue; }
+            let nd = if p == 0 { 2 } else { rng.below(3) };
+            let mut ds: Vec<(u32, R)> = vec![];
+            for _ in 0..nd {
+                let q = if p == 0 { 1 + rng.below(np as u64 - 1) as u32 } else { rng.below(np as u64) as u32 };
+                if q == p || ds.iter().any(|(x, _)| *x == q) { continue; }
+                ds.push((q, set(rng)));
+            }
+            reg.pkgs.entry(p).or_default().insert(v, Some(ds));
+        }
+    }
+    reg
+}
+
+/// family scope: the versions of a package mostly share their dependencies (as real packages do), and the packages at
+/// the bottom cannot be satisfied: the same learned incompatibility is reused for version after version, so the
+/// derivation trees are deep and have shared nodes
+pub fn family_registry(rng: &mut Rng) -> Registry {
+    let mut reg = Registry::default();
+    let np = 4 + rng.below(3) as u32;
+    let set = |rng: &mut Rng| -> R {
+        let k = rng.below(3) as u32;
+        match rng.below(7) {
+            0 | 1 | 2 => R::full(),
+            3 => R::singleton(k).complement(),
+            4 => R::strictly_lower_than(k + 1),
+            5 => R::higher_than(k),
+            _ => R::singleton(k),
+        }
+    };
+    for p in 0..np {
+        // the family's base dependencies
+        let nb = 1 + rng.below(2);
+        let mut base: Vec<(u32, R)> = vec![];
+        for _ in 0..nb {
+            let q = if p + 1 >= np || rng.chance(1, 6) { if rng.chance(1, 2) { np } else { rng.below(np as u64) as u32 } }
+                    else { p + 1 + rng.below((np - p - 1).min(2) as u64) as u32 };
+            if q == p || base.iter().any(|(x, _)| *x == q) { continue; }
+            let s = if q == np || rng.chance(1, 8) { R::singleton(9u32) } else { set(rng) };
+            base.push((q, s));
+        }
+        let nv = if p == 0 { 1 } else { 2 + rng.below(2) as u32 };
+        for v in 0..nv {
+            if p > 0 && rng.chance(1, 30) { reg.pkgs.entry(p).or_default().insert(v, None); continue; }
+            let mut ds: Vec<(u32, R)> = vec![];
+            for (q, s) in &base {
+                if rng.chance(1, 7) { continue; }
+                ds.push((*q, if rng.chance(1, 4) { set(rng) } else { s.clone() }));
+            }
+            if rng.chance(1, 5) {
+                let q = rng.below(np as u64) as u32;
+                if q != p && !ds.iter().any(|(x, _)| *x == q) { ds.push((q, set(rng))); }
+            }
+            reg.pkgs.entry(p).or_default().insert(v, Some(ds));
+        }
+    }
+    reg
+}
+
+/// corpus: registries kept from earlier findings and seeded changes (they run first, under every strategy below)
+pub fn corpus() -> Vec<(Registry, (u32, u32))> {
+    fn reg(items: &[(u32, u32, Option<Vec<(u32, R)>>)]) -> Registry {
+        let mut r = Registry::default();
+        for (p, v, d) in items { r.pkgs.entry(*p).or_default().insert(*v, d.clone()); }
+        r
+    }
+    let ne = |k: u32| R::singleton(k).complement();
+    let lt = |k: u32| R::strictly_lower_than(k);
+    vec![
+        // a learned incompatibility that is the second cause of a node and also occurs below its first cause
+        (reg(&[(0, 0, Some(vec![(4, R::full()), (5, ne(1))])), (2, 0, Some(vec![(5, lt(1))])), (3, 0, Some(vec![(2, ne(1))])),
+               (4, 0, Some(vec![(3, R::singleton(0u32))])), (4, 2, Some(vec![(2, lt(1))])),
+               (5, 0, Some(vec![(0, R::between(2u32, 4u32))])), (5, 2, Some(vec![(2, lt(2))]))]), (0, 0)),
+        // a package narrowed by the propagation that follows a backtrack which did not touch it
+        (reg(&[(0, 1, Some(vec![(1, R::full()), (2, R::full())])), (2, 2, Some(vec![(3, R::singleton(2u32))])), (2, 1, Some(vec![])),
+               (1, 2, Some(vec![(4, R::full())])), (1, 1, Some(vec![(3, R::full())])), (3, 2, Some(vec![(5, R::full())])), (3, 1, Some(vec![]))]), (0, 1)),
+        // an unavailable version of a package required only by a version that is backtracked away
+        (reg(&[(0, 1, Some(vec![(1, R::full())])), (1, 2, Some(vec![(2, R::full()), (3, R::full())])), (1, 1, Some(vec![])),
+               (2, 1, Some(vec![])), (2, 2, None), (3, 1, Some(vec![(4, R::empty())])), (3, 2, Some(vec![(4, R::empty())])), (3, 3, Some(vec![(4, R::empty())]))]), (0, 1)),
+        // a self-dependency decided first, then a conflict elsewhere and a re-decision outside the self-dependency's set
+        (reg(&[(0, 1, Some(vec![(1, R::full())])), (1, 2, Some(vec![(1, R::higher_than(2u32)), (2, R::singleton(5u32))])), (1, 1, Some(vec![])), (2, 1, Some(vec![]))]), (0, 1)),
+    ]
+}
+
 fn all_perms(n: usize) -> Vec<Vec<i64>> {
     fn rec(cur: &mut Vec<i64>, used: &mut Vec<bool>, n: usize, out: &mut Vec<Vec<i64>>) {
         if cur.len() == n { out.push(cur.clone()); return; }
@@ -530,23 +638,48 @@ fn perm(rng: &mut Rng, n: usize) -> Vec<i64> {
     v
 }
 
+pub static DIV: std::sync::atomic::AtomicU64 = std::sync::atomic::AtomicU64::new(1);
+
 pub fn generate(out: &mut Out, rng: &mut Rng, thorough: bool, which: &str) {
+    let div = DIV.load(std::sync::atomic::Ordering::SeqCst) as usize;
     if which == "solver" {
+        // corpus first, then the deep scope, each under a grid of strategies
+        let strategies = |np: usize, rng: &mut Rng, all: bool| -> Vec<(ChooseMode, PrioMode)> {
+            let mut v = vec![];
+            for choose in [ChooseMode::Newest, ChooseMode::Oldest] {
+                v.push((choose.clone(), PrioMode::Count));
+                v.push((choose.clone(), PrioMode::CountThen(true)));
+                v.push((choose.clone(), PrioMode::CountThen(false)));
+                let n = if all { 6 } else { 1 };
+                for _ in 0..n { v.push((choose.clone(), PrioMode::Static(perm(rng, np)))); }
+            }
+            v
+        };
+        for (reg, root) in corpus() {
+            let np = reg.pkgs.keys().max().copied().unwrap_or(0) as usize + 2;
+            for (choose, prio) in strategies(np, rng, true) { run_and_emit(out, &reg, root, &choose, &prio, &[], false); }
+        }
+        let ndeep = if thorough { 60000 / div } else { 2500 };
+        for i in 0..ndeep {
+            let reg = if i % 2 == 0 { family_registry(rng) } else { deep_registry(rng) };
+            let np = reg.pkgs.keys().max().copied().unwrap_or(0) as usize + 2;
+            for (choose, prio) in strategies(np, rng, false) { run_and_emit(out, &reg, (0, 0), &choose, &prio, &[], false); }
+        }
         // tiny scope: all scripts per registry
-        let ntiny = if thorough { 50625 } else { 1200 };
+        let ntiny = if thorough { 50625 / div } else { 1200 };
         for i in 0..ntiny {
-            let code = if thorough { i as u64 } else { rng.below(50625) };
+            let code = if thorough && div == 1 { i as u64 } else { rng.below(50625) };
             let reg = tiny_registry(code);
             for rv in 1..=2 { enumerate_scripts(out, &reg, (0, rv), if thorough { 200 } else { 24 }, true); }
         }
-        let nsmall = if thorough { 60000 } else { 1500 };
+        let nsmall = if thorough { 60000 / div } else { 1500 };
         for _ in 0..nsmall {
             let reg = small_registry(rng);
             let rv = 1 + rng.below(3) as u32;
             enumerate_scripts(out, &reg, (0, rv), if thorough { 32 } else { 6 }, rng.chance(1, 2));
         }
         // conflict-rich scope: newest/oldest choice x every static priority order of the packages
-        let nscen = if thorough { 40000 } else { 1500 };
+        let nscen = if thorough { 40000 / div } else { 1500 };
         for _ in 0..nscen {
             let reg = scenario_registry(rng);
             let rv = 1 + rng.below(2) as u32;
@@ -561,7 +694,7 @@ pub fn generate(out: &mut Out, rng: &mut Rng, thorough: bool, which: &str) {
                 }
             }
         }
-        let nrand = if thorough { 100000 } else { 2500 };
+        let nrand = if thorough { 100000 / div } else { 2500 };
         for _ in 0..nrand {
             let reg = random_registry(rng);
             let rv = 1 + rng.below(3) as u32;
@@ -573,7 +706,7 @@ pub fn generate(out: &mut Out, rng: &mut Rng, thorough: bool, which: &str) {
         }
     } else {
         // "faults": for each base run, inject a fault at every index of its trace
-        let nbase = if thorough { 20000 } else { 400 };
+        let nbase = if thorough { 20000 / div } else { 400 };
         for i in 0..nbase {
             let reg = if i % 3 == 0 { tiny_registry(rng.below(50625)) } else if i % 3 == 1 { small_registry(rng) } else { random_registry(rng) };
             let rv = 1 + rng.below(2) as u32;
